@@ -289,6 +289,20 @@ def frameiter_trace(run, scratch, n, per, files):
                             signature=lambda b: {"handle": b.get("handle")})
 
 
+def blocks_trace(run, scratch, n):
+    """corpus-scale files: handles built from the whole file, answers validated class block by class block"""
+    events = harness_trace(scratch, "blocks", "blocks", ["--seed", run.seed, "--n", n, "--files", ",".join(BIG_CORPUS)])
+
+    def corrupt(ev):
+        ev["qs"][0]["got"]["cache"] = [[120]]
+        return ev
+    validate_pure_trace(run, scratch, "Trace_Blocks", "Trace_Blocks", events, workers=14 if run.tier == "thorough" else 10,
+                        timeout=3000, corrupt=corrupt, signature=lambda ev: {"file": os.path.basename(ev["file"])})
+    run.steps[-1]["class_blocks"] = len(events)
+    run.steps[-1]["queries"] = sum(len(e["qs"]) for e in events)
+    run.evaluations += 3 * sum(len(e["qs"]) for e in events)
+
+
 COMMON_ASSUME = ["TLC (tla2tools 1.8.0) and its Json/IOUtils module overrides",
                  "harness event/answer encoding (enc.rs, handles.rs), checked by binding canaries",
                  "bounded alphabets in model-checked generation; seeded sampling in traces"]
@@ -303,6 +317,7 @@ def c01(run, scratch):
     retrace_trace(run, scratch, "Trace_Retrace_frame", "frame", 200 if t else 40, 300 if t else 120, SMALL_CORPUS,
                   workers=14 if t else 10)
     frameiter_trace(run, scratch, 60 if t else 15, 80, SMALL_CORPUS[:2])
+    blocks_trace(run, scratch, 100000 if t else 80)
     run.exhaustive = False
     run.assumptions += COMMON_ASSUME
 
@@ -354,6 +369,7 @@ def c02(run, scratch):
         retrace_mc(run, scratch, cfg, "all", workers=14 if t else 10)
     retrace_trace(run, scratch, "Trace_Retrace_all", "all", 300 if t else 60, 300 if t else 150, SMALL_CORPUS,
                   workers=14 if t else 10)
+    blocks_trace(run, scratch, 100000 if t else 150)
     run.exhaustive = False
     run.assumptions += COMMON_ASSUME + ["mapper and cache are both held to the same TLA+ answer; text/typed stack traces and "
                                         "signatures are compared under C07/C08/C16"]
